@@ -58,8 +58,11 @@ def signature_source(shape, first=None):
       return f'{d}=NONLITERAL'
     return f'{d}={default_of(d)!r}'
 
-  for d in shape['dflt']:
+  for i, d in enumerate(shape['dflt']):
     parts.append(dflt(d))
+    if (i == 0 and shape.get('posonly_first_default') and not shape['pos'] and not first and
+        shape.get('kind') == 'function'):
+      parts.append('/')       # def f(v='D:v', /, e='D:e', ...): v is positional-only
   if shape['varargs']:
     parts.append('*args')
   elif shape['kwonly'] or shape['kwdflt']:
